@@ -25,6 +25,7 @@ import (
 	"path/filepath"
 	"runtime"
 	"runtime/debug"
+	"runtime/pprof"
 	"sort"
 	"strings"
 	"sync"
@@ -56,8 +57,8 @@ type c10Kind struct {
 }
 
 var c10Kinds = []c10Kind{
-	{"batch-upload", "batch", false, false, false},   // 0 tqClient.Batch -> DoAPIRequestWithAuth (POST with body)
-	{"locks-list", "locks", false, false, false},     // 1 GET <api>/locks -> DoAPIRequestWithAuth
+	{"batch-upload", "batch", false, false, false},      // 0 tqClient.Batch -> DoAPIRequestWithAuth (POST with body)
+	{"locks-list", "locks", false, false, false},        // 1 GET <api>/locks -> DoAPIRequestWithAuth
 	{"verify/creds@api", "verify", false, false, false}, // 2 verifyUpload -> DoWithAuth
 	{"verify/creds@B", "verify", false, false, true},
 	{"get/creds@api", "get", false, false, false}, // 4 newHTTPRequest + makeRequest -> DoWithAuthNoRetry
@@ -69,7 +70,11 @@ var c10Kinds = []c10Kind{
 	{"get/hdr@B", "get", true, true, true},
 	{"put/hdr@api", "put", true, true, false},
 	{"verify/hdr@api", "verify", true, true, false},
+	// kind added by the widening of round 5 (scenario clientcfg only; the older scenarios enumerate the first c10NBaseKinds kinds)
+	{"head/hdr@api", "head", true, true, false}, // 13 HEAD (as the tus adapter sends it): newHTTPRequest + doHTTP -> Client.Do
 }
+
+const c10NBaseKinds = 13
 
 const c10NCredKinds = 9 // kinds 0..8 look credentials up; 9..12 only carry the action's own header
 
@@ -118,6 +123,8 @@ type c10Script struct {
 	Pol    map[int]c10Pol
 	Loop   int
 	LoopSt int
+	Cfg    int     // client configuration (index into c10Cfgs; 0 = base)
+	Act    *c10Act // action header set / authenticated flag override (scenarios acthdr-*); nil = as the request kind says
 }
 
 var c10Statuses = []int{301, 302, 303, 307, 308}
@@ -150,6 +157,13 @@ func (sc *c10Script) describe(w *c10World) map[string]interface{} {
 	}
 	m := map[string]interface{}{"world": sc.World, "kind": c10Kinds[sc.Kind].name, "credentials": c10CredNames[sc.Cred],
 		"access": []string{"none", "basic"}[sc.Access], "api_host": hn(sc.API), "start_host": hn(sc.Start), "redirect_chain": hops, "host_401_policy": pol}
+	if sc.Cfg > 0 {
+		m["client_configuration"] = c10Cfgs[sc.Cfg].name
+	}
+	if sc.Act != nil {
+		m["action_header_set"] = c10HdrSets[sc.Act.Hdr].name
+		m["transfer_authenticated"] = sc.Act.Authed
+	}
 	if sc.Loop > 0 {
 		m["endless_redirect_loop"] = []string{"", "self-relative", "self-absolute", "ping-pong", "cycle-of-3"}[sc.Loop]
 		m["loop_status"] = sc.LoopSt
@@ -160,6 +174,12 @@ func (sc *c10Script) describe(w *c10World) map[string]interface{} {
 func (sc *c10Script) key() string {
 	var b strings.Builder
 	fmt.Fprintf(&b, "%s/k%d/c%d/a%d/api%d/s%d/l%d.%d", sc.World, sc.Kind, sc.Cred, sc.Access, sc.API, sc.Start, sc.Loop, sc.LoopSt)
+	if sc.Cfg > 0 {
+		fmt.Fprintf(&b, "/cfg%d", sc.Cfg)
+	}
+	if sc.Act != nil {
+		fmt.Fprintf(&b, "/act%d.%v", sc.Act.Hdr, sc.Act.Authed)
+	}
 	for _, h := range sc.Hops {
 		fmt.Fprintf(&b, "/%d.%d.%d", h.Target, h.Status, h.Form)
 	}
@@ -197,7 +217,8 @@ func c10StartFor(kind, api int) int {
 // shape: every redirect graph shape with a fixed credential set-up
 // thorough: depth 0..2 with fully independent hops, depth 3..4 with one status and one Location form per chain, start on A or D.
 // quick:    depth 0..1 full; depth 2 with independent targets/forms but one status per chain out of {302,307,308}; depth 3..4 with status 307 and
-//           forms {absolute, scheme-relative}; chains that start on plain-http D only up to depth 1.
+//
+//	forms {absolute, scheme-relative}; chains that start on plain-http D only up to depth 1.
 func c10ChooseShape(x *vx.X) *c10Script {
 	sc := &c10Script{World: "direct", Cred: c10CHelper, Access: 1, Pol: map[int]c10Pol{}}
 	sc.API = []int{0, 3}[x.In(2)]
@@ -250,7 +271,7 @@ var (
 
 func c10ChooseCommon(x *vx.X, sc *c10Script, credList []int) (credKind bool) {
 	if c10Thorough {
-		sc.Kind = x.In(len(c10Kinds))
+		sc.Kind = x.In(c10NBaseKinds)
 	} else {
 		sc.Kind = c10QuickKinds[x.In(len(c10QuickKinds))]
 	}
@@ -418,13 +439,16 @@ var c10Blocks = []struct {
 	needGit bool
 	share   float64 // cumulative share of the time budget
 }{
-	{"loop", c10ChooseLoop, false, 0.03},
-	{"shape", c10ChooseShape, false, 0.22},
-	{"sources-helper", func(x *vx.X) *c10Script { return c10ChooseSources(x, c10HelperCreds) }, false, 0.40},
-	{"sources2-helper", func(x *vx.X) *c10Script { return c10ChooseSources2(x, c10HelperCreds) }, false, 0.50},
-	{"proxy", c10ChooseProxy, false, 0.60},
-	{"sources-chain", func(x *vx.X) *c10Script { return c10ChooseSources(x, c10ChainCreds) }, true, 0.85},
-	{"sources2-chain", func(x *vx.X) *c10Script { return c10ChooseSources2(x, c10ChainCreds) }, true, 1.0},
+	{"loop", c10ChooseLoop, false, 0.02},
+	{"shape", c10ChooseShape, false, 0.14},
+	{"sources-helper", func(x *vx.X) *c10Script { return c10ChooseSources(x, c10HelperCreds) }, false, 0.24},
+	{"sources2-helper", func(x *vx.X) *c10Script { return c10ChooseSources2(x, c10HelperCreds) }, false, 0.31},
+	{"proxy", c10ChooseProxy, false, 0.39},
+	{"clientcfg", c10ChooseClientCfg, false, 0.60},
+	{"acthdr-helper", func(x *vx.X) *c10Script { return c10ChooseActHdr(x, false) }, false, 0.70},
+	{"sources-chain", func(x *vx.X) *c10Script { return c10ChooseSources(x, c10ChainCreds) }, true, 0.84},
+	{"sources2-chain", func(x *vx.X) *c10Script { return c10ChooseSources2(x, c10ChainCreds) }, true, 0.91},
+	{"acthdr-chain", func(x *vx.X) *c10Script { return c10ChooseActHdr(x, true) }, true, 1.0},
 }
 
 func c10SetPath(needGit bool) {
@@ -553,10 +577,10 @@ func c10Setup() error {
 	c10E = c10Env{root: root, askpass: filepath.Join(root, "askpass.sh"), homeNone: filepath.Join(root, "home-none"), homeAll: filepath.Join(root, "home-all"),
 		homePartial: filepath.Join(root, "home-partial"), homeProxy: filepath.Join(root, "home-proxy"), gitdir: filepath.Join(root, "repo", ".git"), upload: filepath.Join(root, "object.bin")}
 	files := map[string]string{
-		filepath.Join(bin, "git"): c10GitStub,
-		c10E.askpass:              c10AskpassStub,
-		c10E.upload:               c10ObjectData,
-		filepath.Join(c10E.homeAll, ".netrc"): "machine 127.0.0.1\nlogin nl\npassword netrc~127.0.0.1\n\nmachine 127.0.0.2\nlogin nl\npassword netrc~127.0.0.2\n",
+		filepath.Join(bin, "git"):                 c10GitStub,
+		c10E.askpass:                              c10AskpassStub,
+		c10E.upload:                               c10ObjectData,
+		filepath.Join(c10E.homeAll, ".netrc"):     "machine 127.0.0.1\nlogin nl\npassword netrc~127.0.0.1\n\nmachine 127.0.0.2\nlogin nl\npassword netrc~127.0.0.2\n",
 		filepath.Join(c10E.homePartial, ".netrc"): "machine 127.0.0.2\nlogin nl\npassword netrc~127.0.0.2\n",
 		filepath.Join(c10E.homeProxy, ".netrc"):   "machine api.test\nlogin nl\npassword netrc~api.test\n\nmachine other.test\nlogin nl\npassword netrc~other.test\n",
 	}
@@ -570,6 +594,9 @@ func c10Setup() error {
 		}
 	}
 	os.MkdirAll(filepath.Join(root, "nobin"), 0755)
+	if err := c10SetupWiden(root); err != nil {
+		return err
+	}
 	// git-lfs looks `git` up on PATH at every call: either the stub is the only git, or there is none (see c10SetPath)
 	c10SetPath(true)
 	return nil
@@ -610,8 +637,35 @@ func c10ErrClass(err error) string {
 		return "transport-error"
 	case strings.Contains(m, "Bad Gateway"):
 		return "unknown-host"
+	case strings.Contains(m, "Git credentials for") && strings.Contains(m, "not found"):
+		return "credentials-not-found"
+	case strings.Contains(m, "HTTP/2 cannot be used except with TLS"):
+		return "http2-configured-for-plain-http"
+	case strings.Contains(m, c10PlainOnTLS), strings.Contains(m, "Client error"):
+		return "client-error-4xx"
 	}
 	return "other-error"
+}
+
+// c10NormErr reduces an unclassified error message to a stable class name (digits, object ids and URLs' tags removed).
+func c10NormErr(m string) string {
+	m = strings.ReplaceAll(m, c10OID, "<oid>")
+	var b strings.Builder
+	for _, r := range m {
+		switch {
+		case r >= '0' && r <= '9':
+			b.WriteByte('#')
+		case r == '\n' || r == '\t':
+			b.WriteByte(' ')
+		default:
+			b.WriteRune(r)
+		}
+	}
+	m = b.String()
+	if len(m) > 140 {
+		m = m[:140]
+	}
+	return m
 }
 
 func c10Drive(w *c10World, sc *c10Script) (d c10Driven) {
@@ -650,6 +704,9 @@ func c10Drive(w *c10World, sc *c10Script) (d c10Driven) {
 	if w.proxyURL != "" {
 		gitEnv["http.proxy"] = w.proxyURL
 	}
+	if ap := c10Cfgs[sc.Cfg].apply; ap != nil {
+		ap(w, sc, gitEnv, osEnv)
+	}
 	ctx := lfshttp.NewContext(git.NewReadOnlyConfig(filepath.Dir(c10E.gitdir), c10E.gitdir), osEnv, gitEnv)
 	c, err := lfsapi.NewClient(ctx)
 	if err != nil {
@@ -676,10 +733,14 @@ func c10Drive(w *c10World, sc *c10Script) (d c10Driven) {
 	if k.family == "verify" {
 		action.Href = start.Base() + "/verify/" + c10OID
 	}
-	if k.hdrAuth {
+	authed := k.authed
+	if sc.Act != nil {
+		authed = sc.Act.Authed
+		action.Header = c10ActionHeaders(sc.Act.Hdr, start)
+	} else if k.hdrAuth {
 		action.Header = map[string]string{"Authorization": "Basic " + base64.StdEncoding.EncodeToString([]byte("act:action~"+start.Scheme+"~"+start.Auth))}
 	}
-	t := &Transfer{Name: "f.bin", Oid: c10OID, Size: int64(len(c10ObjectData)), Authenticated: k.authed, Path: c10E.upload}
+	t := &Transfer{Name: "f.bin", Oid: c10OID, Size: int64(len(c10ObjectData)), Authenticated: authed, Path: c10E.upload}
 	switch k.family {
 	case "batch":
 		tc := &tqClient{Client: c}
@@ -688,7 +749,7 @@ func c10Drive(w *c10World, sc *c10Script) (d c10Driven) {
 		var req *http.Request
 		if req, err = c.NewRequest("GET", c.Endpoints.Endpoint("download", remote), "locks", nil); err == nil {
 			var res *http.Response
-			if res, err = c.DoAPIRequestWithAuth(remote, req); res != nil && err == nil {
+			if res, err = c.DoAPIRequestWithAuth(remote, req); res != nil && res.Body != nil {
 				res.Body.Close()
 			}
 		}
@@ -702,7 +763,19 @@ func c10Drive(w *c10World, sc *c10Script) (d c10Driven) {
 		var req *http.Request
 		if req, err = bd.newHTTPRequest("GET", action); err == nil {
 			var res *http.Response
-			if res, err = bd.makeRequest(t, req); res != nil && err == nil {
+			if res, err = bd.makeRequest(t, req); res != nil && res.Body != nil {
+				res.Body.Close()
+			}
+		}
+	case "head":
+		t.Actions = ActionSet{"upload": action}
+		tu := &tusUploadAdapter{newAdapterBase(nil, "tus", Upload, nil)}
+		tu.apiClient, tu.remote = c, remote
+		var req *http.Request
+		if req, err = tu.newHTTPRequest("HEAD", action); err == nil {
+			req.Header.Set("Tus-Resumable", TusVersion)
+			var res *http.Response
+			if res, err = tu.doHTTP(t, req); res != nil && res.Body != nil {
 				res.Body.Close()
 			}
 		}
@@ -736,7 +809,7 @@ func c10DecodeLoose(v string) string {
 	return f[1]
 }
 
-var c10Sources = map[string]bool{"helper": true, "gitcred": true, "askpass": true, "netrc": true, "lfsurl": true, "remoteurl": true, "useronly": true, "extra": true, "action": true, "loc": true}
+var c10Sources = map[string]bool{"helper": true, "gitcred": true, "askpass": true, "netrc": true, "lfsurl": true, "remoteurl": true, "useronly": true, "extra": true, "action": true, "loc": true, "extraall": true}
 
 // c10Provenance parses a minted Authorization value: which lookup (source, scheme, authority) produced it.
 func c10Provenance(v string) (src, scheme, auth string, ok bool) {
@@ -805,12 +878,22 @@ func c10Judge(w *c10World, sc *c10Script, obs []c10Obs) c10Verdict {
 		for _, a := range o.Auth {
 			v.nAuth++
 			v.counters["clause1_authorization_values_checked"]++
+			if strings.TrimSpace(a) == "" {
+				// an empty header value carries no credential: nothing was obtained or computed
+				v.counters["clause1_empty_authorization_header_values"]++
+				continue
+			}
 			src, ks, ka, ok := c10Provenance(a)
 			if !ok {
 				add("C10:unattributed-authorization", fmt.Sprintf("request %d to %s://%s carries Authorization %q that no minted lookup produced", o.Seq, o.Scheme, o.HostHdr, c10DecodeLoose(a)), o)
 				continue
 			}
 			v.counters["src_"+src]++
+			if src == "extraall" {
+				// http.extraheader without a URL: configured by the user for every server, not obtained or computed for one destination
+				v.counters["clause1_unscoped_extraheader_value_not_bound_to_a_destination"]++
+				continue
+			}
 			carried := false
 			if hasPrev && o.Hop > 0 {
 				for _, pa := range prev.Auth {
@@ -1025,6 +1108,33 @@ func c10RunFor(block string, choose func(*vx.X) *c10Script) vx.RunFunc {
 				nredir++
 			}
 		}
+		for _, o := range obs {
+			if o.Proto != "" {
+				r.Counters["requests_received_over_"+o.Proto]++
+			}
+			if o.Cookie {
+				r.Counters["requests_received_with_cookie_from_cookiefile"]++
+			}
+			if o.CliCert {
+				r.Counters["requests_received_with_tls_client_certificate"]++
+			}
+			if o.Extra {
+				r.Counters["requests_received_with_configured_extra_header"]++
+			}
+		}
+		if sc.Cfg > 0 {
+			cr := d.result
+			if capped {
+				cr = "capped"
+			}
+			r.Counters["clientcfg/"+c10Cfgs[sc.Cfg].name+"/"+cr]++
+		}
+		if d.result == "other-error" {
+			r.Counters["other_error/"+c10NormErr(w.symbolic(d.errmsg))]++
+		}
+		if sc.Act != nil {
+			r.Counters[fmt.Sprintf("acthdr/%s/authenticated=%v/%s", c10HdrSets[sc.Act.Hdr].name, sc.Act.Authed, d.result)]++
+		}
 		if d.result == "too-many-redirects" {
 			r.Counters["clause3_chain_cut_by_hop_limit"]++
 			r.Counters[fmt.Sprintf("clause3_chain_cut_after_%d_followed_redirects", v.maxHop)]++
@@ -1092,13 +1202,18 @@ func TestVerifC10(t *testing.T) {
 		}
 	}
 	c10Thorough = c.Thorough()
-	c.Rule = "one execution = one case = one choice vector (all choices are Input choices: full product). A case fixes: request kind (13: batch POST, locks GET, verify/GET/PUT of an action href on the API host or on another port, with the action's own Authorization header or with looked-up credentials, Transfer.Authenticated or not), " +
+	c.Rule = "one execution = one case = one choice vector (all choices are Input choices: full product). A case fixes: request kind (13 in the older scenarios, one more (HEAD) in clientcfg: batch POST, locks GET, verify/GET/PUT of an action href on the API host or on another port, with the action's own Authorization header or with looked-up credentials, Transfer.Authenticated or not), " +
 		"credential configuration (13: recording helper as Client.Credentials, multistage helper, user:pass / user-only in lfs.url, user:pass in the git remote URL on the same / on another host, URL-scoped http.<url>.extraheader, and the production helper chain netrc -> cache -> askpass -> `git credential` with netrc for all hosts / one host, GIT_ASKPASS, a `git` stub, each of the last two also after a cache warm-up request), " +
 		"access mode of the start host (none/basic), 401 policy of the start and of the final host (open, needs Authorization, needs it and rejects the first one), and the redirect chain: per hop target in {A https, B same host other port, C other host same port, D plain http}, status in {301,302,303,307,308}, Location form in {absolute, absolute with userinfo, upper-case scheme, scheme-relative, unparseable, and for same-host hops path-absolute, bare relative, empty}. " +
 		"Scenarios (each a full product): shape = all chains of depth 0..2 with independent hops and depth 3..4 with one status/form per chain, start on https A or plain-http D, kinds batch and action-header GET (quick: depth 2 with one status per chain out of {302,307,308}, depth 3..4 with 307 and {absolute, scheme-relative}, start D only to depth 1). " +
 		"sources-helper / sources-chain = depth 0..1 x all kinds x the 7 helper-class / 6 chain-class credential configurations x access x 401 policies (thorough: statuses {301,303,307}, every Location form; quick: 307, forms {absolute, path-absolute}, 11 kinds, final-host policy {open, need}). " +
 		"sources2-helper / sources2-chain = depth 2, all 16 target pairs (thorough: all kinds and policies, 307, {absolute, scheme-relative}; quick: 4 kinds, start policy {open, need}, absolute). " +
 		"proxy = the same client through http.proxy against virtual hosts https://api.test, http://api.test, https://api.test:8443, https://other.test, http://other.test (default ports; absolute / upper-case host / explicit-default-port / trailing-dot / path-absolute Locations), depth 0..2, 4 credential configurations. loop = endless redirect loops (self relative/absolute, ping-pong, 3-cycle) x statuses x 3 body-less kinds. " +
+		"clientcfg = CLIENT CONFIGURATION: each of " + fmt.Sprint(len(c10Cfgs)-1) + " settings that lfshttp reads while building the per-host *http.Client/*http.Transport, one at a time (http.cookiefile readable-empty / URL-scoped to the start host / with cookies / missing file, http.version HTTP/1.1 / HTTP/2 against servers that offer h2, servers offering h2 with the default client, http.<host>.sslverify=false per host, http.sslverify=true with http.sslcainfo, GIT_SSL_NO_VERIFY, http.<host>.sslcert+sslkey, lfs.dialtimeout+keepalive+tlstimeout+concurrenttransfers, lfs.activitytimeout=0, unscoped non-credential http.extraheader, URL-scoped extraheader spelled 'authorization', unscoped Authorization extraheader, GIT_CURL_VERBOSE+LFS_DEBUG_HTTP, proxy from HTTPS_PROXY/HTTP_PROXY, http.proxy together with a cookie file) " +
+		"x request kind {locks GET with looked-up credentials, storage GET and tus-style HEAD with the action's Authorization header (Client.Do), batch POST; thorough: + storage PUT, storage GET with looked-up credentials} x {chains from the https API host, chains from a plain-http API host, endless loops}; helper credentials, access basic. " +
+		"Chains of clientcfg, quick: depth 0; depth 1 = 4 targets x 5 statuses x {absolute, upper-case scheme, scheme-relative, path-absolute on the same host}; depth 2 = 16 target pairs x {302,307} absolute; depth 3 = 64 target triples x 307 absolute; start on plain http to depth 1; loops 4 shapes (proxy world: 2) x {302,307} x 3 body-less kinds. thorough: depth 1 with every Location form; depth 2 with independent targets and forms and one status per chain out of {302,307}; depth 3..4 with 307 and one form per chain out of {absolute, scheme-relative}; start on plain http to depth 1; loops with all five statuses. " +
+		"acthdr-helper / acthdr-chain = ACTION HEADERS of the batch response: header set {none, Authorization, authorization, AUTHORIZATION, AuThOrIzAtIoN, Authorization + another header, Authorization + a second copy spelled authorization with a different value} x Transfer.Authenticated {true (Client.Do; enumerated once, no credential lookup), false} x family {storage GET, storage PUT, verify POST} x (access mode, 401 policy of the action's host) in {(none, open), (none, needs auth), (basic, open); thorough: + (basic, needs auth and rejects the first value)} " +
+		"x credential configuration {helper, multistage helper, user:pass in lfs.url, URL-scoped extraheader; thorough: + user:pass in the remote URL} / {netrc for all hosts, `git credential`; thorough: + netrc for one host, askpass} x chain {depth 0; depth 1 = 4 targets x 5 statuses absolute and 307 path-absolute on the same host (thorough: + scheme-relative, path-absolute for every status); depth 2 = 16 target pairs x 307 absolute}; action href on the API host (thorough: also on B). " +
 		"distinct_nontrivial = distinct cases in which at least one request carrying an Authorization value was observed AND at least one redirect was followed or one 401 was answered"
 	c.Assumptions = []string{
 		"identity of a destination = scheme, lower-cased host name without trailing dot, effective port (default 80/443) of the URL the client addressed (Host header + TLS or not); netrc values are compared by host name only (netrc's own semantics)",
@@ -1106,7 +1221,9 @@ func TestVerifC10(t *testing.T) {
 		"'a small fixed number of hops' is read generously: an endless redirect loop must be abandoned after at most 20 followed redirects (git's http.maxRedirects default); the server stops the case after 30 requests",
 		"servers answer every request on a fresh connection (keep-alive disabled) and stop a case after 80 requests (counted as outcome 'capped', not as a violation)",
 		"the `git` on PATH is a stub that mints `git credential fill` answers and prints nothing for `git remote`; GIT_ASKPASS is a stub script; what real helpers store is outside the property",
-		"Negotiate/NTLM access and SSH-obtained (git-lfs-authenticate) headers are not enumerated; client certificates are not used",
+		"Negotiate/NTLM access and SSH-obtained (git-lfs-authenticate) headers are not enumerated; a TLS client certificate is only used in the client configuration that configures one (the servers ask for it but do not require or verify it)",
+		"http.<url>.extraheader follows git-config's http.<url>.* scoping: an Authorization value configured for a URL belongs to that URL's scheme://host:port; an http.extraheader without URL is configured by the user for every server, was not obtained or computed for one destination, and is therefore not bound to one by clause 1 (counted as clause1_unscoped_extraheader_value_not_bound_to_a_destination); an empty Authorization header value carries no credential",
+		"client configurations are enumerated one at a time (no pairs of settings), with the recording helper and access mode basic; HTTP/2 is only spoken by the https servers of the direct world (the proxy world's CONNECT tunnels speak HTTP/1.1)",
 	}
 	c.Bounds["max_depth_independent_hops"] = 2
 	c.Bounds["max_depth_uniform_hops"] = 4
@@ -1115,6 +1232,8 @@ func TestVerifC10(t *testing.T) {
 	c.Bounds["statuses"] = len(c10Statuses)
 	c.Bounds["location_forms"] = len(c10FormNames)
 	c.Bounds["request_kinds"] = len(c10Kinds)
+	c.Bounds["client_configurations"] = len(c10Cfgs) - 1
+	c.Bounds["action_header_sets"] = len(c10HdrSets)
 	c.Bounds["credential_configurations"] = c10NCreds
 	c.Bounds["hop_limit_demanded"] = c10HopLimit
 	c.Bounds["thorough_alphabets"] = c.Thorough()
@@ -1189,7 +1308,14 @@ func TestVerifC10(t *testing.T) {
 		for k, v := range st.Outcomes {
 			oh[strings.TrimPrefix(k, b.name+"/")] = v
 		}
-		perBlock[b.name] = map[string]interface{}{"cases": st.Executions, "wall_s": time.Since(t0).Seconds(), "outcomes": oh}
+		nfd := -1
+		if ents, err := os.ReadDir("/proc/self/fd"); err == nil {
+			nfd = len(ents)
+		}
+		perBlock[b.name] = map[string]interface{}{"cases": st.Executions, "wall_s": time.Since(t0).Seconds(), "outcomes": oh, "open_fds_after": nfd, "goroutines_after": runtime.NumGoroutine()}
+	}
+	if os.Getenv("C10_DUMP") == "goroutines" {
+		pprof.Lookup("goroutine").WriteTo(os.Stdout, 1)
 	}
 	clauses := map[string]int64{}
 	for k, v := range counters {
